@@ -6,6 +6,9 @@ Leg R: random exact-island instances whose batch streams are produced by the REA
        (FedRoundOracle) computes the exact rational parameters after every round; the real federated_averaging is run
        for 1-3 consecutive rounds under several client listing orders and the jit, debug and pmap (2, 3 devices)
        backends and compared (bit-exact on dyadic instances, 1e-5 otherwise) together with the diagnostics key set.
+Leg K: key discipline - with an integer-noise loss the debug backend's gradient calls reveal the key of every local step
+       (descendant of the client's own key, pairwise distinct); TLC computes the exact parameters for those draws and the
+       debug, jit and pmap backends must all reach them.
 Leg T: "own random key" and order/backend independence of per-client work as PureHistory facts judged by TLC;
        non-rational optimizers (Adam, Adagrad, Yogi, RMSProp) relationally (orders/backends agree).
 """
@@ -29,15 +32,25 @@ VERIF = os.path.dirname(os.path.dirname(HERE))
 INVS = ['EqualsDefinition', 'OneDiagPerClient', 'EmptyRoundFixpoint', 'NoNaN']
 
 
-def run_real(fedjax, case, order, backend, loss=None, copt=None, sopt=None, keys_seed=0):
-  """Runs the real algorithm for inst.rounds rounds; clients of each cohort listed in `order` (a permutation seed)."""
+def run_real(fedjax, case, order, backend, loss=None, copt=None, sopt=None, keys_seed=0, key_log=None):
+  """Runs the real algorithm for inst.rounds rounds; clients of each cohort listed in `order` (a permutation seed).
+
+  key_log: list; every call of the gradient function appends the (concrete) key it was given - debug backend only."""
   import jax  # pylint: disable=g-import-not-at-top
   from fedjax.core import for_each_client as fec  # pylint: disable=g-import-not-at-top
   from fedjax.core import models  # pylint: disable=g-import-not-at-top
   inst = case['inst']
   dss = island.datasets(fedjax, inst['data'])
   ids = island.client_ids(len(dss))
+  if loss == 'int_noise':
+    loss = island.int_noise_loss
   grad_fn = models.grad(loss or island.per_example_loss)
+  if key_log is not None:
+    base_grad = grad_fn
+
+    def grad_fn(params, batch, rng):  # pylint: disable=function-redefined
+      key_log.append(tuple(int(v) for v in np.asarray(rng).reshape(-1)))
+      return base_grad(params, batch, rng)
   rec = {'rounds': [], 'diag': [], 'norms': [], 'error': None}
   try:
     with fec.for_each_client_backend(backend):
@@ -74,11 +87,107 @@ def pmap_worker(devices, items):
 def fixed_instances():
   R = island.R
   a = dict(data=[[[1, 0], [2, 1], [3, -1]], [[5, 2]], []], stream=[[[1, 2], [3, 1]], [[1, 1]], []], init=[R(0), R(1)],
-           copt=island.opt_spec('sgd', 0.5), sopt=island.opt_spec('sgd', 1), mu=R(0), rounds=2, cohorts=[[1, 2, 3], [2, 1]])
-  b = dict(a, copt=island.opt_spec('mom', 0.5, 0.5), sopt=island.opt_spec('mom', 1, 0.5), cohorts=[[1, 2], [3], [1, 3]], rounds=3)
+           copt=island.opt_spec('sgd', 0.5), sopt=island.opt_spec('sgd', 1), mu=R(0), rounds=2, cohorts=[[1, 2, 3], [2, 1]],
+           noise=[[[1, -2], [2], [0]], [[-1, 2], [1], [0]]])    # a key-dependent loss
+  b = dict(a, copt=island.opt_spec('mom', 0.5, 0.5), sopt=island.opt_spec('mom', 1, 0.5), cohorts=[[1, 2], [3], [1, 3]], rounds=3,
+           noise=[[[1, -2], [2], [0]], [[0, 0], [0], [0]], [[2, 1], [-1], [0]]])
   c = dict(data=[[[2]], [[-1], [3]], [[0], [4], [4]]], stream=[[[1]], [[2, 1]], [[1, 2], [3, 3]]], init=[R(1)],
            copt=island.opt_spec('sgd', 1), sopt=island.opt_spec('mom', 0.5, 0.25), mu=R(0), rounds=2, cohorts=[[3, 1, 2], [1, 2, 3]])
   return [a, b, c]
+
+
+def descendants(jax, key, depth):
+  """All keys obtainable from `key` by at most `depth` nested jax.random.split(.) selections (the key itself included)."""
+  out, level = set(), [key]
+  for _ in range(depth + 1):
+    nxt = []
+    for k in level:
+      out.add(tuple(int(v) for v in np.asarray(k).reshape(-1)))
+      a, b = jax.random.split(k)
+      nxt += [a, b]
+    level = nxt
+  return out
+
+
+def key_leg(ctx, fedjax, cases, ev):
+  """Each client is trained by sequential steps with its OWN random key, a fresh descendant at every step.
+
+  The loss draws an INTEGER eta(key) (exact island).  On the debug backend the gradient function records the key of every
+  step: they must descend from the client's own key of that round and be pairwise distinct (PureHistory facts).  TLC
+  (FedRoundOracle with inst.noise = eta of the recorded keys) then gives the exact parameters; the debug, jit and pmap
+  backends must all produce them, i.e. draw with the same keys."""
+  import jax  # pylint: disable=g-import-not-at-top
+  big = ctx.thorough
+  picked = [c for c in cases if max(len(s) for s in c['inst']['stream']) >= 2 and sum(1 for d in c['inst']['data'] if d) >= 1][: (24 if big else 8)]
+  keyed, logs = [], []
+  for ci, c in enumerate(picked):
+    inst = c['inst']
+    log = []
+    seed = 300 + ci
+    rec = run_real(fedjax, c, 'listed', 'debug', loss='int_noise', keys_seed=seed, key_log=log)
+    if rec['error']:
+      ev.append({'e': 'Fact', 'name': 'KeyedRunCompletes', 'about': f'keyed case {ci}: {rec["error"]}', 'holds': False})
+      continue
+    n = len(inst['data'])
+    noise = [[[0] * max(1, len(s)) for s in inst['stream']] for _ in range(inst['rounds'])]
+    pos = 0
+    ok_count = True
+    for r, cohort in enumerate(inst['cohorts']):
+      keys = jax.random.split(jax.random.PRNGKey(seed + r), n)
+      seen_clients = set()
+      for cpos, cl in enumerate(cohort):
+        steps = len(inst['stream'][cl - 1])
+        own = descendants(jax, keys[cl - 1], steps + 1) if steps else set()
+        for i in range(steps):
+          if pos >= len(log):
+            ok_count = False
+            break
+          k = log[pos]
+          pos += 1
+          noise[r][cl - 1][i] = int(island.int_noise_of(np.array(k, np.uint32)))
+          ev.append({'e': 'Fact', 'name': 'StepKeyDescendsFromOwnClientKey', 'about': f'keyed case {ci} round {r + 1} client {cl} step {i + 1}', 'holds': k in own})
+          if cl not in seen_clients:    # (a client listed twice in a cohort is handed the same key twice by this harness)
+            ev.append({'e': 'Fresh', 'group': f'keys drawn with in keyed case {ci} round {r + 1}', 'out': ctx_intern(k)})
+        seen_clients.add(cl)
+    ev.append({'e': 'Fact', 'name': 'OneGradientCallPerLocalStep', 'about': f'keyed case {ci}: {len(log)} calls', 'holds': ok_count and pos == len(log)})
+    kinst = dict(inst, noise=noise)
+    if not island.within_island(dict(kinst, mu=island.R(0))):
+      continue
+    keyed.append((ci, c, kinst, seed, rec))
+  if not keyed:
+    return
+  expected = island.oracle(ctx, [k[2] for k in keyed], 'K')
+  pm = [{'case': k[1], 'order': 'reversed', 'loss': 'int_noise', 'keys_seed': k[3]} for k in keyed]
+  pm_recs = pmap_worker(2, pm)
+  n_ok = 0
+  for (ci, c, kinst, seed, rec_debug), exp, rec_pmap in zip(keyed, expected, pm_recs):
+    runs = [('debug', 'listed', rec_debug), ('jit', 'reversed', run_real(fedjax, c, 'reversed', 'jit', loss='int_noise', keys_seed=seed)),
+            ('pmap/2', 'reversed', rec_pmap)]
+    for backend, order, rec in runs:
+      ctx.case(key=('K', ci, backend), nontrivial=True)
+      if rec['error']:
+        ctx.violation(f'keys:{backend.split("/")[0]}:exception', f'{rec["error"]} with the key-dependent loss, backend={backend}, instance={kinst}', replay={'instance': kinst, 'hparams': c['h']})
+        continue
+      bad = None
+      for r in range(kinst['rounds']):
+        want_p = [float(island.frac(x)) for x in exp['rounds'][r]]
+        if not np.allclose(rec['rounds'][r], want_p, rtol=1e-5, atol=1e-5):
+          bad = f'round {r + 1}: parameters {rec["rounds"][r]}, but sequential steps with a fresh descendant of the client\'s own key per step give {want_p}'
+          break
+      if bad:
+        ctx.violation(f'keys:{backend.split("/")[0]}:params', f'{bad} (backend={backend}, order={order}, eta per step={kinst["noise"]}, hparams={c["h"]}, instance={c["inst"]})',
+                      replay={'instance': kinst, 'hparams': c['h'], 'backend': backend})
+      else:
+        n_ok += 1
+  ctx.trace_ok(n_ok)
+  ctx.leg('K', keyed_instances=len(keyed), runs=3 * len(keyed))
+
+
+_KEY_INTERN = {}
+
+
+def ctx_intern(k):
+  return _KEY_INTERN.setdefault(k, len(_KEY_INTERN) + 1)
 
 
 def run(ctx):
@@ -93,11 +202,11 @@ def run(ctx):
                       'a zero-example client with num_epochs=None and num_steps>0 makes shuffle_repeat_batch loop forever: the '
                       'batch stream (hence the definition) does not exist there; such inputs are not generated (DESIGN section 7, F-14)']
   # ---- leg M
-  mc = '---- MODULE MC_FedRound ----\nEXTENDS FedRound\nInstDef == {%s}\n====\n' % ', '.join(tla_value(i) for i in fixed_instances())
+  mc = '---- MODULE MC_FedRound ----\nEXTENDS FedRound\nInstDef == {%s}\n====\n' % ', '.join(tla_value(island.complete(i)) for i in fixed_instances())
   consts = dict(Instances=Raw('<- InstDef'), **island.TOG)
   ctx.model_check('MC_FedRound', name='FedRound_M', constants=consts, invariants=INVS, extra_modules={'MC_FedRound': mc})
   for tog, inv in (('WeightByExamples', 'EqualsDefinition'), ('FreshClientOpt', 'EqualsDefinition'), ('RoundParams', 'EqualsDefinition'),
-                   ('ZeroGuard', 'NoNaN'), ('CarryServerOpt', 'EqualsDefinition')):
+                   ('ZeroGuard', 'NoNaN'), ('CarryServerOpt', 'EqualsDefinition'), ('AdvanceKey', 'EqualsDefinition')):
     c = dict(consts)
     c[tog] = False
     ctx.model_check('MC_FedRound', expect=inv, name=f'FedRound_ctl_{tog}', constants=c, invariants=INVS, extra_modules={'MC_FedRound': mc}, coverage=False)
@@ -193,6 +302,7 @@ def run(ctx):
         else:
           ev.append({'e': 'Call', 'key': f'{name}: params after {c["inst"]["rounds"]} rounds (case {ci})', 'out': tol(np.array(rec['rounds'][-1], np.float32))})
           ev.append({'e': 'Fact', 'name': 'Finite', 'about': f'{name} case {ci}', 'holds': bool(np.all(np.isfinite(rec['rounds'][-1])))})
+  key_leg(ctx, fedjax, cases, ev)
   vs, _ = vtraces.validate_batch(ctx, 'PureHistory', [{'events': ev}], {}, 'PH')
   v = vs[0]
   if not v.ok:
